@@ -209,6 +209,11 @@ Section Proofs.
     Permutation (l ++ a ++ x ++ b ++ r) (l ++ x ++ a ++ b ++ r).
   Proof. apply Permutation_app_head. rewrite !app_assoc. do 2 apply Permutation_app_tail. apply Permutation_app_comm. Qed.
 
+  Lemma perm_move3 {A} (a b x d : list A) : Permutation (a ++ b ++ x ++ d) (x ++ a ++ b ++ d).
+  Proof.
+    rewrite (app_assoc a b), (app_assoc a b d). apply Permutation_app_swap_app.
+  Qed.
+
   (** a worker slot changes from [w] to [w']: how [took] changes *)
   Lemma took_set_nth ws i w w' :
     nth_error ws i = Some w ->
@@ -682,5 +687,243 @@ Section Proofs.
     assert (Hs : n_sub s1' = false).
     { cbn in E. destruct (n_sub s1) eqn:Es; injection E as <-; auto. }
     destruct (nrun_bound_unsub _ tr2 s1' s2 Hs Hb1 H2) as [_ Hl]. now apply Hl.
+  Qed.
+
+  (** * STOMP *)
+  Definition smsg1 (x : sitem) : list msg := match x with SMsg m => [m] | SReceipt => [] end.
+  Definition smsgs (l : list sitem) : list msg := flat_map smsg1 l.
+  Definition sflight (s : stomp P) : list msg := s_c s ++ smsgs (s_in s).
+  Definition sunsub_free (tr : list sev) : Prop := ~ In SUnsubCall tr.
+  Definition scrash_free (tr : list sev) : Prop := forall t b, In (SPub t b) tr -> dlv b <> Crash.
+  Definition squiescent (s : stomp P) : Prop := forall e, s_internal e = true -> sstep dlv s e = None.
+  Definition loop_alive (l : lstate) : Prop := match l with LIdle | LBusy _ => True | _ => False end.
+
+  Lemma srun_app tr1 : forall s tr2,
+    srun dlv s (tr1 ++ tr2) = match srun dlv s tr1 with Some s1 => srun dlv s1 tr2 | None => None end.
+  Proof.
+    induction tr1 as [|e tr1 IH]; intros s tr2; [reflexivity|].
+    cbn [app srun]. destruct (sstep dlv s e); [apply IH|reflexivity].
+  Qed.
+  Lemma spubs_app tr1 tr2 : spubs (tr1 ++ tr2) = spubs tr1 ++ spubs tr2.
+  Proof. induction tr1 as [|[] tr1 IH]; cbn; rewrite ?IH; reflexivity. Qed.
+  Lemma sunsub_free_snoc tr e : sunsub_free (tr ++ [e]) <-> sunsub_free tr /\ e <> SUnsubCall.
+  Proof.
+    unfold sunsub_free. rewrite in_app_iff. cbn. split.
+    - intros H. split; [tauto|]. intros ->. tauto.
+    - intros [H1 H2] [H|[H|[]]]; [tauto|]. apply H2. now rewrite H.
+  Qed.
+  Lemma scrash_free_snoc tr e : scrash_free (tr ++ [e]) -> scrash_free tr.
+  Proof. intros H t b Hin. apply (H t b). apply in_or_app. now left. Qed.
+  Lemma smsgs_app a b : smsgs (a ++ b) = smsgs a ++ smsgs b.
+  Proof. apply flat_map_app. Qed.
+
+  Record sinv (tr : list sev) (s : stomp P) : Prop := {
+    si_topic : s_topic s = topic;
+    si_next : s_next s = length (spubs tr);
+    si_perm : exists dropped,
+        Permutation (s_log s ++ dec (sflight s) ++ dropped) (owed dlv topic 0 (spubs tr))
+        /\ (sunsub_free tr -> dropped = []);
+    si_order : sunsub_free tr -> s_log s ++ dec (sflight s) = owed dlv topic 0 (spubs tr);
+    si_state : sunsub_free tr ->
+        s_bsub s = true /\ s_stop s = false /\ s_closed s = false /\ ~ In SReceipt (s_in s) /\
+        match s_loop s with LIdle | LBusy _ | LDead => True | _ => False end;
+    si_bodies : forall m, In m (sflight s) -> exists t, In (SPub t (m_body m)) tr;
+    si_alive : sunsub_free tr -> scrash_free tr -> loop_alive (s_loop s)
+  }.
+
+  Lemma sinv_init cap : sinv [] (sinit P topic cap).
+  Proof.
+    constructor; cbn; auto.
+    - exists []. cbn. auto.
+    - intros m [].
+  Qed.
+
+  Ltac sfin Hu := let H := fresh in intros H; apply sunsub_free_snoc in H; tauto.
+
+  Lemma sstep_inv tr s e s' : sinv tr s -> sstep dlv s e = Some s' -> sinv (tr ++ [e]) s'.
+  Proof.
+    intros [Ht Hn [dropped [Hperm Hdrop]] Hord Hst Hbod Hal] Hstep.
+    assert (Hpubs0 : forall e0, (forall t b, e0 <> SPub t b) -> spubs (tr ++ [e0]) = spubs tr).
+    { intros e0 H0. rewrite spubs_app. destruct e0; cbn; try apply app_nil_r. exfalso. eapply H0; eauto. }
+    assert (Hbod' : forall e0 m, In m (sflight s) -> exists t, In (SPub t (m_body m)) (tr ++ [e0])).
+    { intros e0 m Hin. destruct (Hbod m Hin) as [t0 H0]. exists t0. apply in_or_app. now left. }
+    destruct e as [t b| | | | |err| |]; cbn [sstep] in Hstep.
+    - (* SPub *)
+      injection Hstep as <-.
+      set (m := mkMsg (s_next s) t b).
+      assert (Hpubs : spubs (tr ++ [SPub t b]) = spubs tr ++ [(t, b)]) by (rewrite spubs_app; reflexivity).
+      assert (Hm : m = mkMsg (length (spubs tr)) t b) by (unfold m; now rewrite Hn).
+      constructor; cbn [s_topic s_next s_log s_bsub s_stop s_closed s_in s_loop]; auto.
+      + rewrite Hpubs, app_length. cbn. lia.
+      + rewrite Hpubs, owed_snoc, <- Hm. unfold on_topic. rewrite Ht.
+        unfold sflight. cbn [s_c s_in].
+        destruct (s_bsub s) eqn:Es; cbn [andb].
+        * destruct (Headers.bytes_eqb t topic) eqn:Et.
+          -- exists dropped. split; [|intros Hu; apply sunsub_free_snoc in Hu; tauto].
+             unfold sflight in Hperm.
+             eapply Permutation_trans; [|apply Permutation_app_tail; exact Hperm].
+             rewrite smsgs_app. cbn [smsgs flat_map smsg1 app]. decs.
+             do 3 apply Permutation_app_head. apply Permutation_app_comm.
+          -- exists dropped. rewrite app_nil_r. split; [exact Hperm|].
+             intros Hu; apply sunsub_free_snoc in Hu; tauto.
+        * destruct (Headers.bytes_eqb t topic) eqn:Et.
+          -- exists (dropped ++ dec1 m). split.
+             ++ rewrite !app_assoc. apply Permutation_app_tail. rewrite <- !app_assoc. exact Hperm.
+             ++ intros Hu. apply sunsub_free_snoc in Hu. destruct (Hst (proj1 Hu)) as [E _]. congruence.
+          -- exists dropped. rewrite app_nil_r. split; [exact Hperm|].
+             intros Hu; apply sunsub_free_snoc in Hu; tauto.
+      + intros Hu. apply sunsub_free_snoc in Hu. destruct Hu as [Hu _].
+        destruct (Hst Hu) as [Es _]. rewrite Es. cbn [andb].
+        rewrite Hpubs, owed_snoc, <- Hm, <- (Hord Hu). unfold on_topic. rewrite Ht.
+        unfold sflight. cbn [s_c s_in].
+        destruct (Headers.bytes_eqb t topic); rewrite ?app_nil_r; [|reflexivity].
+        rewrite smsgs_app. cbn [smsgs flat_map smsg1 app]. decs. reflexivity.
+      + intros Hu. apply sunsub_free_snoc in Hu. destruct Hu as [Hu _].
+        destruct (Hst Hu) as (E1 & E2 & E3 & E4 & E5). repeat split; auto.
+        destruct (s_bsub s && Headers.bytes_eqb t (s_topic s)); [|exact E4].
+        intros Hin. apply in_app_iff in Hin. destruct Hin as [Hin|[Hin|[]]]; [tauto|discriminate].
+      + intros m0 Hin. unfold sflight in Hin. cbn [s_c s_in] in Hin.
+        assert (Hcase : In m0 (sflight s) \/ m0 = m).
+        { unfold sflight. destruct (s_bsub s && Headers.bytes_eqb t (s_topic s)); [|tauto].
+          rewrite smsgs_app in Hin. cbn in Hin. inapp. cbn in Hin. intuition. }
+        destruct Hcase as [H | ->]; [now apply Hbod'|].
+        exists t. apply in_or_app. right. cbn. now left.
+      + intros Hu Hc. apply sunsub_free_snoc in Hu. apply Hal; [tauto|]. eapply scrash_free_snoc; eauto.
+    - (* SFeed *)
+      assert (Hpubs : spubs (tr ++ [SFeed]) = spubs tr) by (apply Hpubs0; discriminate).
+      destruct (s_in s) as [|[m|] rest] eqn:Ei; [discriminate| |].
+      + destruct (length (s_c s) <? s_cap s); [|discriminate]. injection Hstep as <-.
+        assert (Hfl : sflight s = (s_c s ++ [m]) ++ smsgs rest).
+        { unfold sflight. rewrite Ei. cbn. now rewrite <- app_assoc. }
+        constructor; cbn [s_topic s_next s_log s_bsub s_stop s_closed s_in s_loop]; rewrite ?Hpubs; auto.
+        * exists dropped. unfold sflight at 1. cbn [s_c s_in]. rewrite <- Hfl.
+          split; [exact Hperm|]. intros Hu; apply sunsub_free_snoc in Hu; tauto.
+        * intros Hu. apply sunsub_free_snoc in Hu. unfold sflight at 1. cbn [s_c s_in]. rewrite <- Hfl. apply Hord; tauto.
+        * intros Hu. apply sunsub_free_snoc in Hu. destruct (Hst (proj1 Hu)) as (E1 & E2 & E3 & E4 & E5).
+          repeat split; auto. intros Hin. apply E4. now right.
+        * intros m0 Hin. unfold sflight at 1 in Hin. cbn [s_c s_in] in Hin. rewrite <- Hfl in Hin. now apply Hbod'.
+        * intros Hu Hc. apply sunsub_free_snoc in Hu. apply Hal; [tauto|]. eapply scrash_free_snoc; eauto.
+      + injection Hstep as <-.
+        assert (Hnu : ~ sunsub_free (tr ++ [SFeed])).
+        { intros Hu. apply sunsub_free_snoc in Hu. destruct (Hst (proj1 Hu)) as (_ & _ & _ & E4 & _). apply E4. now left. }
+        assert (Hfl : sflight s = s_c s ++ smsgs rest) by (unfold sflight; now rewrite Ei).
+        constructor; cbn [s_topic s_next s_log s_bsub s_stop s_closed s_in s_loop]; rewrite ?Hpubs; auto; try tauto.
+        * exists dropped. unfold sflight at 1. cbn [s_c s_in]. rewrite <- Hfl. split; [exact Hperm|tauto].
+        * intros m0 Hin. unfold sflight at 1 in Hin. cbn [s_c s_in] in Hin. rewrite <- Hfl in Hin. now apply Hbod'.
+    - (* SRecv *)
+      assert (Hpubs : spubs (tr ++ [SRecv]) = spubs tr) by (apply Hpubs0; discriminate).
+      destruct (s_loop s) eqn:El; try discriminate.
+      + (* LIdle *)
+        destruct (s_c s) as [|m rest] eqn:Ec.
+        * destruct (s_closed s) eqn:Ecl; [|discriminate]. injection Hstep as <-.
+          assert (Hnu : ~ sunsub_free (tr ++ [SRecv])).
+          { intros Hu. apply sunsub_free_snoc in Hu. destruct (Hst (proj1 Hu)) as (_ & _ & E3 & _). congruence. }
+          assert (Hfl : sflight s = [] ++ smsgs (s_in s)) by (unfold sflight; now rewrite Ec).
+          constructor; cbn [s_topic s_next s_log s_bsub s_stop s_closed s_in s_loop]; rewrite ?Hpubs; auto; try tauto.
+          -- exists dropped. unfold sflight at 1. cbn [s_c s_in]. rewrite <- Hfl. split; [exact Hperm|tauto].
+          -- intros m0 Hin. unfold sflight at 1 in Hin. cbn [s_c s_in] in Hin. rewrite <- Hfl in Hin. now apply Hbod'.
+        * assert (Hfl : sflight s = m :: rest ++ smsgs (s_in s)) by (unfold sflight; now rewrite Ec).
+          assert (Hbm : exists t0, In (SPub t0 (m_body m)) tr).
+          { apply Hbod. rewrite Hfl. now left. }
+          assert (Hbod2 : forall m0, In m0 (rest ++ smsgs (s_in s)) -> exists t, In (SPub t (m_body m0)) (tr ++ [SRecv])).
+          { intros m0 Hin. apply Hbod'. rewrite Hfl. now right. }
+          destruct (s_stop s) eqn:Estop.
+          -- injection Hstep as <-.
+             assert (Hnu : ~ sunsub_free (tr ++ [SRecv])).
+             { intros Hu. apply sunsub_free_snoc in Hu. destruct (Hst (proj1 Hu)) as (_ & E2 & _). congruence. }
+             constructor; cbn [s_topic s_next s_log s_bsub s_stop s_closed s_in s_loop]; rewrite ?Hpubs; auto; try tauto.
+             exists (dec1 m ++ dropped). split; [|tauto].
+             rewrite Hfl in Hperm. unfold sflight. cbn [s_c s_in]. decs_in Hperm. decs.
+             eapply Permutation_trans; [|exact Hperm]. apply Permutation_app_head. apply perm_move3.
+          -- destruct (dlv (m_body m)) as [h p| |] eqn:Ed; injection Hstep as <-.
+             ++ assert (Hd1 : dec1 m = [mkInv (m_id m) h p]) by (unfold dec1; now rewrite Ed).
+                constructor; cbn [s_topic s_next s_log s_bsub s_stop s_closed s_in s_loop]; rewrite ?Hpubs; auto.
+                ** exists dropped. split; [|intros Hu; apply sunsub_free_snoc in Hu; tauto].
+                   rewrite Hfl in Hperm. unfold sflight. cbn [s_c s_in]. decs_in Hperm. rewrite Hd1 in Hperm. decs. exact Hperm.
+                ** intros Hu. apply sunsub_free_snoc in Hu. destruct Hu as [Hu _]. rewrite <- (Hord Hu), Hfl.
+                   unfold sflight. cbn [s_c s_in]. decs. rewrite Hd1. reflexivity.
+                ** intros Hu. apply sunsub_free_snoc in Hu. destruct (Hst (proj1 Hu)) as (E1 & E2 & E3 & E4 & E5). auto.
+                ** intros Hu Hc. exact I.
+             ++ assert (Hd1 : dec1 m = []) by (unfold dec1; now rewrite Ed).
+                constructor; cbn [s_topic s_next s_log s_bsub s_stop s_closed s_in s_loop]; rewrite ?Hpubs; auto.
+                ** exists dropped. split; [|intros Hu; apply sunsub_free_snoc in Hu; tauto].
+                   rewrite Hfl in Hperm. unfold sflight. cbn [s_c s_in]. decs_in Hperm. rewrite Hd1 in Hperm. decs. exact Hperm.
+                ** intros Hu. apply sunsub_free_snoc in Hu. destruct Hu as [Hu _]. rewrite <- (Hord Hu), Hfl.
+                   unfold sflight. cbn [s_c s_in]. decs. rewrite Hd1. reflexivity.
+                ** intros Hu. apply sunsub_free_snoc in Hu. destruct (Hst (proj1 Hu)) as (E1 & E2 & E3 & E4 & E5). auto.
+                ** intros Hu Hc. exact I.
+             ++ assert (Hd1 : dec1 m = []) by (unfold dec1; now rewrite Ed).
+                constructor; cbn [s_topic s_next s_log s_bsub s_stop s_closed s_in s_loop]; rewrite ?Hpubs; auto.
+                ** exists dropped. split; [|intros Hu; apply sunsub_free_snoc in Hu; tauto].
+                   rewrite Hfl in Hperm. unfold sflight. cbn [s_c s_in]. decs_in Hperm. rewrite Hd1 in Hperm. decs. exact Hperm.
+                ** intros Hu. apply sunsub_free_snoc in Hu. destruct Hu as [Hu _]. rewrite <- (Hord Hu), Hfl.
+                   unfold sflight. cbn [s_c s_in]. decs. rewrite Hd1. reflexivity.
+                ** intros Hu. apply sunsub_free_snoc in Hu. destruct (Hst (proj1 Hu)) as (E1 & E2 & E3 & E4 & E5). auto.
+                ** intros Hu Hc. exfalso. destruct Hbm as [t0 H0]. apply (Hc t0 (m_body m)); [|exact Ed].
+                   apply in_or_app. now left.
+      + (* LDrain *)
+        destruct (s_c s) as [|m rest] eqn:Ec; [discriminate|]. injection Hstep as <-.
+        assert (Hnu : ~ sunsub_free (tr ++ [SRecv])).
+        { intros Hu. apply sunsub_free_snoc in Hu. destruct (Hst (proj1 Hu)) as (_ & _ & _ & _ & E5). exact E5. }
+        assert (Hfl : sflight s = m :: rest ++ smsgs (s_in s)) by (unfold sflight; now rewrite Ec).
+        constructor; cbn [s_topic s_next s_log s_bsub s_stop s_closed s_in s_loop]; rewrite ?Hpubs; auto; try tauto.
+        * exists (dec1 m ++ dropped). split; [|tauto].
+          rewrite Hfl in Hperm. unfold sflight. cbn [s_c s_in]. decs_in Hperm. decs.
+          eapply Permutation_trans; [|exact Hperm]. apply Permutation_app_head. apply perm_move3.
+        * intros m0 Hin. apply Hbod'. rewrite Hfl. right. exact Hin.
+    - (* SStop *)
+      assert (Hpubs : spubs (tr ++ [SStop]) = spubs tr) by (apply Hpubs0; discriminate).
+      destruct (s_loop s) eqn:El; try discriminate. destruct (s_stop s) eqn:Es; [|discriminate]. injection Hstep as <-.
+      assert (Hnu : ~ sunsub_free (tr ++ [SStop])).
+      { intros Hu. apply sunsub_free_snoc in Hu. destruct (Hst (proj1 Hu)) as (_ & E2 & _). congruence. }
+      constructor; cbn [s_topic s_next s_log s_bsub s_stop s_closed s_in s_loop]; rewrite ?Hpubs; auto; try tauto.
+      all: try (exists dropped; split; [exact Hperm|tauto]).
+      all: try (intros m0 Hin; now apply Hbod').
+    - (* SDrained *)
+      assert (Hpubs : spubs (tr ++ [SDrained]) = spubs tr) by (apply Hpubs0; discriminate).
+      destruct (s_loop s) eqn:El; try discriminate. destruct (s_c s) eqn:Ec; [|discriminate].
+      destruct (s_closed s) eqn:Ecl; [|discriminate]. injection Hstep as <-.
+      assert (Hnu : ~ sunsub_free (tr ++ [SDrained])).
+      { intros Hu. apply sunsub_free_snoc in Hu. destruct (Hst (proj1 Hu)) as (_ & _ & E3 & _). congruence. }
+      assert (Hfl : sflight s = [] ++ smsgs (s_in s)) by (unfold sflight; now rewrite Ec).
+      constructor; cbn [s_topic s_next s_log s_bsub s_stop s_closed s_in s_loop]; rewrite ?Hpubs; auto; try tauto.
+      + exists dropped. unfold sflight at 1. cbn [s_c s_in]. rewrite <- Hfl. split; [exact Hperm|tauto].
+      + intros m0 Hin. unfold sflight at 1 in Hin. cbn [s_c s_in] in Hin. rewrite <- Hfl in Hin. now apply Hbod'.
+    - (* SDone *)
+      assert (Hpubs : spubs (tr ++ [SDone err]) = spubs tr) by (apply Hpubs0; discriminate).
+      destruct (s_loop s) eqn:El; try discriminate. injection Hstep as <-.
+      constructor; cbn [s_topic s_next s_log s_bsub s_stop s_closed s_in s_loop]; rewrite ?Hpubs; auto.
+      all: try (exists dropped; split; [exact Hperm|intros Hu; apply sunsub_free_snoc in Hu; tauto]).
+      all: try (intros Hu; apply sunsub_free_snoc in Hu; apply Hord; tauto).
+      all: try (intros Hu; apply sunsub_free_snoc in Hu; destruct (Hst (proj1 Hu)) as (E1 & E2 & E3 & E4 & E5); auto; fail).
+      all: try (intros m0 Hin; now apply Hbod').
+      all: try (intros _ _; exact I).
+    - (* SUnsubCall *)
+      assert (Hpubs : spubs (tr ++ [SUnsubCall]) = spubs tr) by (apply Hpubs0; discriminate).
+      destruct (s_unsub s); try discriminate. injection Hstep as <-.
+      assert (Hnu : ~ sunsub_free (tr ++ [SUnsubCall])).
+      { intros Hu. apply sunsub_free_snoc in Hu. tauto. }
+      assert (Hfl : sflight s = s_c s ++ smsgs (s_in s ++ [SReceipt])).
+      { unfold sflight. rewrite smsgs_app. cbn. now rewrite app_nil_r. }
+      constructor; cbn [s_topic s_next s_log s_bsub s_stop s_closed s_in s_loop]; rewrite ?Hpubs; auto; try tauto.
+      + exists dropped. unfold sflight at 1. cbn [s_c s_in]. rewrite <- Hfl. split; [exact Hperm|tauto].
+      + intros m0 Hin. unfold sflight at 1 in Hin. cbn [s_c s_in] in Hin. rewrite <- Hfl in Hin. now apply Hbod'.
+    - (* SUnsubRet *)
+      assert (Hpubs : spubs (tr ++ [SUnsubRet]) = spubs tr) by (apply Hpubs0; discriminate).
+      destruct (s_unsub s) eqn:Eu; try discriminate. destruct (s_closed s) eqn:Ecl; [|discriminate]. injection Hstep as <-.
+      assert (Hnu : ~ sunsub_free (tr ++ [SUnsubRet])).
+      { intros Hu. apply sunsub_free_snoc in Hu. destruct (Hst (proj1 Hu)) as (_ & _ & E3 & _). congruence. }
+      constructor; cbn [s_topic s_next s_log s_bsub s_stop s_closed s_in s_loop]; rewrite ?Hpubs; auto; try tauto.
+      all: try (exists dropped; split; [exact Hperm|tauto]).
+      all: try (intros m0 Hin; now apply Hbod').
+  Qed.
+
+  Lemma srun_inv cap tr : forall s, srun dlv (sinit P topic cap) tr = Some s -> sinv tr s.
+  Proof.
+    induction tr as [|e tr IH] using rev_ind; intros s Hrun.
+    - cbn in Hrun. injection Hrun as <-. apply sinv_init.
+    - rewrite srun_app in Hrun. destruct (srun dlv (sinit P topic cap) tr) as [s1|] eqn:E1; [|discriminate].
+      cbn in Hrun. destruct (sstep dlv s1 e) as [s2|] eqn:E2; [|discriminate]. injection Hrun as <-.
+      eapply sstep_inv; eauto.
   Qed.
 End Proofs.
